@@ -82,6 +82,9 @@ def gen_string_program(rng, n):
     lines = []
     def piece(prefix):
         r = rng.random()
+        # an escaped backslash followed by text that would be another escape if the pair were mis-scanned (\\u00e9 is SIX characters),
+        # runs of backslashes of even and odd length in front of a universal character name
+        if r < 0.08: return rng.choice(['\\\\u00e9', '\\\\U0001F600', '\\\\x41', '\\\\101', '\\\\n', '\\\\\\u00e9', '\\\\\\\\u20ac', '\\\\\\\\\\U0001F600', '\\\\\\\\', '\\\\u', '\\\\U', '?\\?/', '\\\\\\n'])
         if r < 0.35: return rng.choice('abcxyzABC 019_$#@!~')
         if r < 0.6:
             e = rng.choice(esc)
